@@ -49,7 +49,12 @@ def main():
         if rc != 0:
             out["patch_log"] = o[-500:]
             print(json.dumps(out, indent=1)); return 1
-        if not skip_demo:
+        if "--benign" in sys.argv:
+            rc, o = sh("cargo test --workspace --offline --no-fail-fast 2>&1 | grep -E '^test result|FAILED|^error' ", repo, env)
+            out["suite_green_with_change"] = ("FAILED" not in o) and ("error" not in o) and o.count("test result: ok") >= 5
+            rc, o = sh("cargo build --workspace --offline --no-default-features 2>&1 | tail -3", repo, env)
+            out["builds_no_default_features"] = "Finished" in o
+        elif not skip_demo:
             rc, o = sh("cargo test --workspace --offline --no-fail-fast 2>&1 | grep -E '^test result|FAILED|^error' ", repo, env)
             out["suite_green_with_change"] = ("FAILED" not in o) and ("error" not in o) and o.count("test result: ok") >= 5
             out["suite_log"] = o[-400:]
